@@ -30,6 +30,23 @@ pub enum Target {
     OpenWithIndexes(u8),
 }
 
+/// A second task that runs while the target is cancelled: it starts after
+/// `delay` scheduling points, so it is typically queued behind the in-flight
+/// target (exclusive operations) when the cancellation poisons the handle.
+#[derive(Clone, Debug, Serialize, Deserialize, PartialEq)]
+pub struct Companion {
+    pub what: CompanionOp,
+    pub delay: u32,
+}
+
+#[derive(Clone, Debug, Serialize, Deserialize, PartialEq)]
+pub enum CompanionOp {
+    Flush,
+    CollectionClose,
+    CloseCollection,
+    DbClose,
+}
+
 #[derive(Clone, Debug, Serialize, Deserialize)]
 pub struct CancelCase {
     pub seed: u64,
@@ -39,6 +56,9 @@ pub struct CancelCase {
     /// None = sweep every k; Some(k) = only that suspension point
     pub k: Option<u64>,
     pub clock: ClockMode,
+    /// only with `Target::Doc`
+    #[serde(default)]
+    pub companion: Option<Companion>,
 }
 
 pub fn generate_cancel(case_seed: u64, idx: u64, _tier: Tier) -> CancelCase {
@@ -78,6 +98,19 @@ pub fn generate_cancel(case_seed: u64, idx: u64, _tier: Tier) -> CancelCase {
     if matches!(target, Target::Doc(DOp::RemoveExt { .. })) {
         prefix.push(DOp::SaveExt { key: 0, val: 1 });
     }
+    let companion = if matches!(target, Target::Doc(DOp::Add(_) | DOp::Update { .. } | DOp::Remove { .. } | DOp::SaveExt { .. })) && rng.chance(1, 2) {
+        Some(Companion {
+            what: match rng.below(4) {
+                0 => CompanionOp::Flush,
+                1 => CompanionOp::CollectionClose,
+                2 => CompanionOp::CloseCollection,
+                _ => CompanionOp::DbClose,
+            },
+            delay: rng.range(1, 8) as u32,
+        })
+    } else {
+        None
+    };
     CancelCase {
         seed: case_seed,
         knobs,
@@ -88,6 +121,7 @@ pub fn generate_cancel(case_seed: u64, idx: u64, _tier: Tier) -> CancelCase {
             0 => ClockMode::Frozen,
             _ => ClockMode::Tick(2),
         },
+        companion,
     }
 }
 
@@ -175,7 +209,47 @@ fn run_one(case: &CancelCase, k: u64, rep: &mut RunReport, sig: &mut Sig) -> Res
             let exp = before.expect(op, knobs.indexes, &vocab);
             let coll = s.world.coll.clone();
             let mut w2 = World { store: s.store.clone(), knobs: knobs.clone(), db: s.world.db.clone(), coll: coll.clone(), vocab: vocab.clone() };
-            let r = s.sim.run1(cancel_at(async { w2.exec(op).await }, k)).map_err(|o| violation!("c06.liveness", "{ctx}: scheduler outcome {o:?}"))?;
+            // (cancel instant, companion [first-call lower bound, returned ok])
+            let cancel_seq: std::cell::Cell<Option<u64>> = std::cell::Cell::new(None);
+            let comp_result: std::cell::RefCell<Option<(u64, Result<(), String>)>> = std::cell::RefCell::new(None);
+            let r = match &case.companion {
+                None => s.sim.run1(cancel_at(async { w2.exec(op).await }, k)).map_err(|o| violation!("c06.liveness", "{ctx}: scheduler outcome {o:?}"))?,
+                Some(comp) => {
+                    let slot: std::cell::RefCell<Option<Result<Outcome, u64>>> = std::cell::RefCell::new(None);
+                    let sim2 = s.sim.clone();
+                    let sim3 = s.sim.clone();
+                    let db = s.world.db.clone();
+                    let c3 = coll.clone();
+                    let (slot_r, cancel_r, comp_r) = (&slot, &cancel_seq, &comp_result);
+                    let w2r = &mut w2;
+                    let victim: simcore::sim::LocalTask = Box::pin(async move {
+                        let r = cancel_at(async { w2r.exec(op).await }, k).await;
+                        if r.is_err() {
+                            cancel_r.set(Some(sim2.tick()));
+                        }
+                        *slot_r.borrow_mut() = Some(r);
+                    });
+                    let comp = comp.clone();
+                    let companion: simcore::sim::LocalTask = Box::pin(async move {
+                        for _ in 0..comp.delay {
+                            sim3.yield_now().await;
+                        }
+                        let started = sim3.tick();
+                        let r = match comp.what {
+                            CompanionOp::Flush => c3.flush(anda_db::unix_ms()).await.map(|_| ()),
+                            CompanionOp::CollectionClose => c3.close().await,
+                            CompanionOp::CloseCollection => db.close_collection(COLL).await,
+                            CompanionOp::DbClose => db.close().await,
+                        };
+                        *comp_r.borrow_mut() = Some((started, r.map_err(|e| format!("{e:?}"))));
+                    });
+                    let out = s.sim.run(vec![victim, companion]);
+                    if out != simcore::sim::Outcome::Done {
+                        return Err(violation!("c06.liveness", "{ctx} with {:?}: scheduler outcome {out:?}", case.companion));
+                    }
+                    slot.borrow_mut().take().expect("victim result")
+                }
+            };
             s.sim.set_park(false);
             let out = match r {
                 Ok(out) => {
@@ -191,6 +265,50 @@ fn run_one(case: &CancelCase, k: u64, rep: &mut RunReport, sig: &mut Sig) -> Res
             let mut after = before.clone();
             // possible after-state (add id = whatever extra id shows up)
             let poisoned = coll.is_poisoned();
+            if let (Some(cseq), Some(comp), Some((started, cres))) = (cancel_seq.get(), &case.companion, comp_result.borrow().clone()) {
+                rep.probe("cancellation_with_companion", 1);
+                if poisoned {
+                    // the companion is task 1; whatever it applied under the collection
+                    // prefix after the cancellation was written through a poisoned handle
+                    // (an exclusive operation cannot have held the gate while the victim,
+                    // which poisoned the handle from inside the gate, was in flight)
+                    let p = format!("{DB_NAME}/{COLL}/");
+                    let wrote: Vec<String> = s.sim.mut_log_since(log_mark).into_iter().filter(|m| m.task == 1 && m.seq > cseq && m.applied && m.path.contains(&p)).map(|m| format!("{} {}", m.kind.short(), m.path)).collect();
+                    rep.probe("companion_ran_after_poison", (started > cseq || !wrote.is_empty() || cres.is_err()) as u64);
+                    if !wrote.is_empty() {
+                        return Err(violation!(
+                            "c06.poisoned-handle-wrote",
+                            "{ctx}: the handle was poisoned by the cancellation, yet the concurrent {:?} (returned {cres:?}) then wrote {} objects through it, e.g. {:?}",
+                            comp.what,
+                            wrote.len(),
+                            &wrote[..wrote.len().min(3)]
+                        ));
+                    }
+                }
+            }
+            if case.companion.is_some() {
+                // the companion may have closed the collection or the database:
+                // judge the retained handle, then look at the state through a
+                // fresh process image
+                if poisoned {
+                    rep.probe("poisoned_by_cancellation", 1);
+                    check_dead_handle(&s, "poisoned", &ctx)?;
+                }
+                let st = s.store.clone();
+                let w = World::boot(&st, &knobs).map_err(|e| violation!("c06.reopen-failed", "{ctx} with {:?}: restart failed: {e:?}", case.companion))?;
+                s.world = w;
+                let obs = block(observe(&s.world.coll, knobs.indexes, &vocab, s.max_id + 1)).map_err(|mut v| {
+                    v.message = format!("{ctx} with {:?} (restarted): {}", case.companion, v.message);
+                    v
+                })?;
+                let new_id = obs.docs.keys().find(|id| !before.docs.contains_key(id)).copied();
+                after.apply(op, &exp, new_id.or(Some(u64::MAX)));
+                let one = [op.clone()];
+                let l = ledger_of(&before, &after);
+                let cc = CrashCheck { knobs: &knobs, ledger: &l, ops: &one, seed: case.seed, reboot_delta: 0 };
+                cc.check_ledger(&obs, 0, &ctx)?;
+                return Ok(false);
+            }
             if poisoned {
                 rep.probe("poisoned_by_cancellation", 1);
                 check_dead_handle(&s, "poisoned", &ctx)?;
